@@ -53,6 +53,9 @@ checks = {
  "C14": ("fault_enumeration", "exhaustive single and pairwise per-event faults x event-provider behaviours on generated state / send_join responses (hash-derived IDs, reference signatures) through CheckStateResponse / CheckSendJoinResponse; missing or disallowed events at every depth through VerifyEventAuthChain / VerifyAuthRulesAtState; every batch of <=3 inputs through LoadAndVerify / RequestBackfill; oracle recomputed per event from VerifyEventSignatures and Allowed",
          "Every fault assignment within the bound is executed on the real verification functions; which events may leave is recomputed independently per event from the two sub-checks, so the plumbing (filtering, whole-response failure, classification, one result per input) is decided exactly.",
          "VerifyEventSignatures / Allowed used as sub-oracles (C06/C07 decide them); static key ring", "4/C14"),
+ "C15": ("fault_enumeration", "exhaustive products of request parameters x event shapes x signature faults x querier answers x template-builder outcomes executed on the real HandleMakeJoin / HandleMakeLeave / HandleSendJoin / HandleInvite, and of scripted make_join x send_join remote answers on the real PerformJoin; guard-soundness oracle computed from the cell parameters plus reference signature verification of the returned event against the unmodified input",
+         "Every cell of the stated parameter products is executed on the real handlers; an accepted cell that breaks any listed condition, or whose output lacks a valid local signature over the unmodified event, is a violation. Completeness is only a vacuity guard (each handler accepts some cell).",
+         "Allowed / VerifyJSON sub-oracles (C07 / C02 decide them); HandleInviteV3 and PerformInvite (pseudo-ID rooms) not driven", "4/C15"),
 }
 pending = {}
 props = [json.loads(l) for l in open('/verif/properties.jsonl')]
